@@ -32,7 +32,8 @@ DEPS = ('subtle',)
 
 
 def shapes(tier, seed):
-    out = [('auth', 64), ('auth', 63), ('auth', 65), ('auth', 0), ('pipeline', 64)]
+    # '-trace': the host application has raised the log level to Trace, so the arguments of every log record are evaluated
+    out = [('auth', 64), ('auth', 63), ('auth', 65), ('auth', 0), ('pipeline', 64), ('auth-trace', 64), ('pipeline-trace', 64)]
     return out
 
 
@@ -51,11 +52,13 @@ def run_shape(prog, shape, tier, seed, res):
 
     def body(m, ctx):
         m.x_memcmp_early_exit = True
+        if kind.endswith('-trace'):
+            m.log_max_level = 5
         key = sym_bytes(ctx, 'SECRET_key', 32)
         sig = hexish(ctx, 'sig', n)
         prov = provider_ok(key)
         m.trace = []
-        if kind == 'auth':
+        if kind.startswith('auth'):
             auth = mk_auth(conc_bytes('AKID/20150830/us-east-1/service/aws4_request'), instant(T0), sig)
             fut = m.call('SigV4Authenticator::validate_signature',
                          [Ptr(Cell(auth), ()), str_ptr('us-east-1'), str_ptr('service'), instant(T0), C.TimeDelta(900),
@@ -96,13 +99,15 @@ def run_shape(prog, shape, tier, seed, res):
         i = next((j for j, (p, q) in enumerate(zip(a, b)) if p != q), min(len(a), len(b)))
         res.findings.append(Finding('refusing a wrong 64-character signature executes %d different block sequences depending on where it is wrong '
                                     '(first divergence at trace step %d: %r vs %r)' % (len(distinct), i, a[i] if i < len(a) else None, b[i] if i < len(b) else None),
-                                    {'shape': list(shape), 'first_difference_positions': exits[:64] or [0, 63]}, None, None, repr(shape)))
+                                    {'shape': list(shape), 'first_difference_positions': exits[:64] or [0, 63],
+                                     'log_level': 'trace' if kind.endswith('-trace') else None}, None, None, repr(shape)))
 
 
 # --------------------------------------------------------------------------- concrete side
 
-def native_trace(rp, positions):
-    return rp.ask({'op': 'ct_trace', 'canonical_request_sha256': 'ab' * 32, 'credential': 'AKID/20150830/us-east-1/service/aws4_request',
+def native_trace(rp, positions, log_level=None):
+    extra = {'log_level': log_level} if log_level else {}
+    return rp.ask({**extra, 'op': 'ct_trace', 'canonical_request_sha256': 'ab' * 32, 'credential': 'AKID/20150830/us-east-1/service/aws4_request',
                    'session_token': None, 'timestamp': {'secs': T0, 'nanos': 0}, 'region': 'us-east-1', 'service': 'service',
                    'server_time': {'secs': T0, 'nanos': 0}, 'mismatch_secs': 900, 'provider': {'result': {'signing_key_hex': '00' * 32}},
                    'relative_to_expected': [[p, '0'] for p in positions]})
@@ -113,7 +118,7 @@ def replay_finding(rp, f):
     pos = sorted(set([pos[0], pos[len(pos) // 2], pos[-1]]))
     if len(pos) < 2:
         pos = [0, 63]
-    nat = native_trace(rp, pos)
+    nat = native_trace(rp, pos, f.inp.get('log_level'))
     if 'runs' not in nat:
         return False, {'native': nat}
     steps = [(r.get('signature', '')[:4], r.get('steps')) for r in nat['runs']]
@@ -176,7 +181,19 @@ def extra_checks(tier, seed, rp):
                 'native instruction traces differ by position of first difference', {'positions': [0, 1, 31, 63]}, native)))
             lines.append('  ptrace single-step counts per position: %s' % native['steps'])
             status = 1
-    return {'status': status, 'lines': lines, 'kani': {'harnesses': rows, 'wall_s': data.get('wall_s')}, 'native_ptrace': native}
+    # the same with the log level raised to Trace (arguments of trace!() are evaluated inside the measured region)
+    nat_t = native_trace(rp, [0, 1, 31, 63], 'trace')
+    native_t = {'supported': 'runs' in nat_t}
+    if 'runs' in nat_t:
+        native_t.update({'all_equal': nat_t.get('all_equal'), 'steps': [r.get('steps') for r in nat_t['runs']]})
+        if nat_t.get('all_equal') is False and status != 1:
+            lines.append('VIOLATION property=C07 replay=%s' % write_replay_file(PROP, Finding(
+                'native instruction traces differ by position of first difference when the log level is Trace',
+                {'positions': [0, 1, 31, 63], 'first_difference_positions': [0, 1, 31, 63], 'log_level': 'trace'}, native_t)))
+            lines.append('  ptrace single-step counts per position (log level Trace): %s' % native_t['steps'])
+            status = 1
+    return {'status': status, 'lines': lines, 'kani': {'harnesses': rows, 'wall_s': data.get('wall_s')}, 'native_ptrace': native,
+            'native_ptrace_log_level_trace': native_t}
 
 
 def describe(f):
